@@ -14,7 +14,7 @@ let reset_admin () = cur_admin := coq_of_string "ADMIN"; admin_gen := 0; old_adm
 
 type pop = PC of string * string | PR of string * string | PH of string | PW of string | PX | PBad
          | PCf of string * string | PRf of string * string | PRace of string | POvl of string * string * string
-         | PXA | PAge of string | PFrr of string
+         | PXA | PAge of string | PFrr of string | PCc of string | PXf of string
          | PW2 of pop * string   (* Cw / Rw: a create / revoke with <probe> authenticated inside its write transaction *)
 
 let parse_op (o : string) : pop * string list =
@@ -30,6 +30,8 @@ let parse_op (o : string) : pop * string list =
   | ["Rf"; c; n] | ["Rl"; c; n] -> PRf (c, n), [c; n]
   | ["RACE"; n] -> PRace n, [n]
   | ["XA"; _] -> PXA, []
+  | ["XF"; n] -> PXf n, [n]
+  | [f; n] when Stdlib.String.length f > 2 && (Stdlib.String.sub f 0 2 = "CC" || Stdlib.String.sub f 0 2 = "CS") -> PCc n, [n]
   | ["AGE"; n; _] -> PAge n, [n]
   | [f; n] when Stdlib.String.length f > 3 && Stdlib.String.sub f 0 3 = "FRR" -> PFrr n, [n]
   | ["Cw"; c; n; q] -> PW2 (PC (c, n), q), [c; n; q]
@@ -101,7 +103,7 @@ let coq_op env (p : pop) =
   | PRf (c, n) -> Some (Tokens.RevokeFail (resolve env c, resolve env n)), None
   | PRace n -> Some (Tokens.Race (resolve env n)), None
   | PAge _ -> Some Tokens.Restart, None    (* the age of a token is not a criterion: nothing changes *)
-  | PBad | POvl _ | PW2 _ | PXA | PFrr _ -> None, None
+  | PBad | POvl _ | PW2 _ | PXA | PFrr _ | PCc _ | PXf _ -> None, None
 
 (* SLW:<first>:<second> is judged like OVL (the overlap is produced below the repository instead of above it).
    OVL:<held>:<probe> = authenticate <held> (HTTP), and while it is in flight authenticate <probe> on an ordinary
@@ -144,6 +146,14 @@ let model input =
   let out = Stdlib.List.map (fun p ->
       let r = match p, coq_op env p with
         | PXA, _ -> ignore (change_admin ()); "xa"
+        | PCc n, _ ->
+          (* of the k concurrently issued tokens the model follows the one that is bound to the name (the others
+             stay valid or are revoked without a name) *)
+          let v, k = next_value env n in
+          st := Tokens.step !cur_admin !st (Tokens.Create (!cur_admin, v)); do_bind env n v k; "cc:ok"
+        | PXf n, _ ->
+          (* restart = identity; the first lookup fails: only the admin token gets through *)
+          "xf:" ^ (if resolve env n = !cur_admin then "A" else "N")
         | PFrr n, _ ->
           let os, (n, v, k) = frr_ops env n in
           Stdlib.List.iter (fun o -> st := Tokens.step !cur_admin !st o) os; do_bind env n v k; "frr:ok"
@@ -200,6 +210,15 @@ let spec input obs =
       Stdlib.List.iteri (fun i (p, r) ->
           let res, vec = match split_on '/' r with [a; b] -> a, b | _ -> raise (Fail "malformed-observable no vector") in
           (match p, coq_op env p with
+           | PCc n, _ ->
+             if res <> "cc:ok" then
+               raise (Fail (Printf.sprintf "%s op %d got %s"
+                              (if Stdlib.String.length res >= 6 && Stdlib.String.sub res 0 6 = "cc:DUP" then "token-not-distinct" else "concurrent-create-failed") i res));
+             let v, k = next_value env n in
+             pre := !pre @ [Tokens.Create (!cur_admin, v)]; do_bind env n v k
+           | PXf n, _ ->
+             let want = "xf:" ^ (if resolve env n = !cur_admin then "A" else "N") in
+             if res <> want then raise (Fail (Printf.sprintf "%s op %d want %s got %s" (if want = "xf:N" then "store-failure-fails-open" else "valid-token-rejected") i want res))
            | PXA, _ ->
              if res <> "xa" then raise (Fail (Printf.sprintf "outcome-mismatch op %d want xa got %s" i res));
              let old, nw = change_admin () in
